@@ -11,25 +11,27 @@ pub fn preprocess(expr: &str, file_id: FileID) -> Result<String, Box<Report>> {
     let mut loc = 0;
     let mut block_start = 0;
 
-    let mut it = expr.chars();
+    let mut it = expr.chars().peekable();
     while let Some(c0) = it.next() {
-        loc += 1;
+        loc += c0.len_utf8();
         match (state, c0) {
             (0, '/') => {
-                loc += 1;
                 match it.next() {
                     Some('/') => {
+                        loc += 1;
                         state = 1;
                         pp.push(' ');
                         pp.push(' ');
                     }
                     Some('*') => {
-                        block_start = loc;
+                        loc += 1;
+                        block_start = loc - 2;
                         state = 2;
                         pp.push(' ');
                         pp.push(' ');
                     }
                     Some(c1) => {
+                        loc += c1.len_utf8();
                         pp.push(c0);
                         pp.push(c1);
                     }
@@ -45,24 +47,14 @@ pub fn preprocess(expr: &str, file_id: FileID) -> Result<String, Box<Report>> {
                 state = 0;
             }
             (2, '*') => {
-                loc += 1;
-                match it.next() {
-                    Some('/') => {
-                        pp.push(' ');
-                        pp.push(' ');
-                        state = 0;
-                    }
-                    Some(c) => {
-                        pp.push(' ');
-                        for _i in 0..c.len_utf8() {
-                            pp.push(' ');
-                        }
-                    }
-                    None => {
-                        let error =
-                            UnclosedCommentError { location: block_start..block_start, file_id };
-                        return Err(Box::new(error.into_report()));
-                    }
+                pp.push(' ');
+                // Only consume the next character if it closes the comment
+                // (otherwise it may itself be the `*` of the closing `*/`).
+                if it.peek() == Some(&'/') {
+                    it.next();
+                    loc += 1;
+                    pp.push(' ');
+                    state = 0;
                 }
             }
             (_, c) => {
@@ -71,6 +63,10 @@ pub fn preprocess(expr: &str, file_id: FileID) -> Result<String, Box<Report>> {
                 }
             }
         }
+    }
+    if state == 2 {
+        let error = UnclosedCommentError { location: block_start..block_start, file_id };
+        return Err(Box::new(error.into_report()));
     }
     Ok(pp)
 }
